@@ -429,6 +429,7 @@ fn debug_build_probe() -> (bool, bool) {
 
 fn run(args: &Args) -> i32 {
     install_hook();
+    if args.extra.get("mode").map(|m| m.as_str()) == Some("http-child") { return c16x::http_child(args) }
     let mut rng = Rng::new(args.seed);
     let per_fn = args.get_u64("per_fn", if args.thorough() { 20000 } else { 1500 });
     let repo = std::env::var("KV_REPO").unwrap_or_else(|_| "/repo".into());
